@@ -222,7 +222,7 @@ async def fixpoint_trial(lines, cfg, eav, crafted=False, reads=0):
             c2 = json.loads(json.dumps(cfg or {}))
             c2.setdefault("config", {}).update({"disable_discovery": True, "enable_eavesdrop": eav})
             g2 = Gateway(None, input_file=io.TextIOWrapper(io.BytesIO(b"")), **{**c2, **shrink(sch1)})
-            await g2.start()
+            await gw.start(g2)
             await g2._restore_cached_packets(p1)
             await gw.settle()
             sch2, p2 = g2.get_state(include_expired=inc)
